@@ -9,7 +9,7 @@ FUNCTIONS = [
     "batchie.common.select_unique_zipped_numpy_arrays",
 ]
 BOUNDS = {
-    "quick": "screens of 4 rows (3 structures with duplicate conditions, single-agent rows, 1-3 plates); every boolean selection (all 2^4), every nested selection of it, every second parent-level selection; observed/unobserved split after set_observed on every row selection and after every Plate.merge; unique filter on 3 rows x 2 symbolic integer columns; plate / observed / unobserved views with observation values of every float class (NaN, +-inf, -0.0)",
+    "quick": "screens of 4 rows (3 structures with duplicate conditions, single-agent rows, 1-3 plates); every boolean selection (all 2^4), every nested selection of it, every second parent-level selection; observed/unobserved split after set_observed on every row selection and after every Plate.merge; unique filter on 3 rows x 2 symbolic integer columns; plate / observed / unobserved views with observation values of every float class (NaN, +-inf, -0.0); a fourth structure with single-agent replicates across plates, single_treatment_effects among the per-experiment attributes",
     "thorough": "screens of 5 and 6 rows; unique filter on 4 rows x 3 symbolic integer columns",
 }
 ASSUMPTIONS = [
